@@ -162,6 +162,17 @@ pub struct Outcome {
     pub restarts: u32,
     pub probes: u32,
     pub harness_error: Option<String>,
+    /// (first event ordinal, one past the last, op kind) per operation of `ops` (dry runs)
+    #[serde(default)]
+    pub op_ranges: Vec<(u64, u64, String)>,
+    /// fault-mix runs: operations that returned an error after an injected I/O error (indeterminate)
+    #[serde(default)]
+    pub indeterminate_ops: u32,
+    /// fault-mix runs: largest number of candidate models alive at once
+    #[serde(default)]
+    pub max_candidates: u32,
+    #[serde(default)]
+    pub errno_by_code: std::collections::BTreeMap<i32, u64>,
 }
 
 #[derive(Clone, Debug, Serialize, Deserialize, Default)]
@@ -231,6 +242,18 @@ struct Exec<'a> {
     last_obs: Obs,
     log: Vec<u8>,
     out: Outcome,
+    /// fault-mix runs (DESIGN §6.4): further candidate models; an operation that returned an error
+    /// after an injected I/O error is indeterminate - wholly applied or wholly absent
+    alts: Vec<StoreModel>,
+}
+
+fn errno_fired() -> u64 {
+    simsys::counters().faults_errno.values().sum()
+}
+
+/// operations inside which I/O errors are injected (the others are never made to fail half-way)
+fn fault_target(op: &Op) -> bool {
+    matches!(op, Op::Insert { .. } | Op::Delete { .. } | Op::SaveKg { .. } | Op::SaveAll | Op::CompactAll | Op::CompactIfNeeded { .. })
 }
 
 fn fail(oracle: &str, step: i64, detail: String) -> Failure {
@@ -431,7 +454,11 @@ impl<'a> Exec<'a> {
         if let Some(d) = obs.has_duplicates() {
             return Err(fail("not_a_set", step, d));
         }
-        if self.case.check_model {
+        if self.case.check_model && !self.alts.is_empty() {
+            if let Err((kind, d)) = self.explained(&obs) {
+                return Err(fail(&format!("{oracle_prefix}_{kind}"), step, d));
+            }
+        } else if self.case.check_model {
             let want = self.model.normalised();
             if let Some(d) = obs.diff_facts(&want) {
                 return Err(fail(&format!("{oracle_prefix}_facts"), step, d));
@@ -444,6 +471,38 @@ impl<'a> Exec<'a> {
             }
         }
         Ok(obs)
+    }
+
+    /// Index of a candidate model that explains `obs` completely, or the first difference against
+    /// the primary candidate.
+    fn explained(&self, obs: &Obs) -> Result<usize, (&'static str, String)> {
+        let mut first: Option<(&'static str, String)> = None;
+        for (i, m) in std::iter::once(&self.model).chain(self.alts.iter()).enumerate() {
+            let want = m.normalised();
+            let d = obs
+                .diff_facts(&want)
+                .map(|d| ("facts", d))
+                .or_else(|| obs.diff_rules(&want).map(|d| ("rules", d)))
+                .or_else(|| obs.diff_schemas(&want).map(|d| ("schemas", d)));
+            match d {
+                None => return Ok(i),
+                Some(x) => {
+                    if first.is_none() {
+                        first = Some(x);
+                    }
+                }
+            }
+        }
+        let (k, d) = first.expect("at least one candidate");
+        Err((k, format!("none of {} candidate models (failed operations applied or not) explains the state; vs acknowledged-only: {d}", self.alts.len() + 1)))
+    }
+
+    /// memory and disk agree again (after a reopen): keep only the candidate that was observed
+    fn collapse_to(&mut self, idx: usize) {
+        if idx > 0 {
+            self.model = self.alts[idx - 1].clone();
+        }
+        self.alts.clear();
     }
 
     fn probe(&mut self, step: i64) -> Result<(), Failure> {
@@ -484,12 +543,25 @@ impl<'a> Exec<'a> {
                 return Ok(());
             }
             if let Err(e) = r {
-                return Err(fail("op_failed", step, format!("save_all at shutdown: {e}")));
+                if self.case.faults.is_empty() {
+                    return Err(fail("op_failed", step, format!("save_all at shutdown: {e}")));
+                }
             }
         }
         self.engine = None;
         self.out.restarts += 1;
-        let opened = self.open();
+        let mut fired = errno_fired();
+        let mut opened = self.open();
+        // an injected I/O error may land inside recovery itself (ordinals shift after the first
+        // fault): the operator starts the process again; faults are one-shot. A reopen that fails
+        // without a fault having fired during it is a genuine failure and is not retried.
+        let mut tries = 0;
+        while opened.is_err() && !simsys::is_frozen() && errno_fired() > fired && tries < 3 {
+            fired = errno_fired();
+            self.engine = None;
+            opened = self.open();
+            tries += 1;
+        }
         if simsys::is_frozen() {
             // the crash point lies inside this restart's recovery: the restart is the in-flight
             // operation (handled by the caller), not a failure
@@ -509,7 +581,13 @@ impl<'a> Exec<'a> {
         // the durable-mode contract: clean restart reproduces the live state. In async/batched
         // modes only a graceful restart promises that.
         let promised = graceful || self.case.cfg.durability == "immediate";
-        if promised {
+        if promised && !self.alts.is_empty() {
+            // failed operations may surface (or vanish) across a restart, nothing else may change
+            match self.explained(&after) {
+                Ok(i) => self.collapse_to(i),
+                Err((kind, d)) => return Err(fail(&format!("restart_differs_{kind}"), step, d)),
+            }
+        } else if promised {
             if let Some(d) = after.diff_facts(&before) {
                 return Err(fail("restart_differs_facts", step, d));
             }
@@ -544,17 +622,57 @@ impl<'a> Exec<'a> {
                     self.probe(step)?;
                 }
                 _ => {
+                    let errs_before = errno_fired();
+                    let ord_before = if self.case.want_trace { simsys::ordinal() } else { 0 };
                     let real = self.apply_real(op);
+                    if self.case.want_trace {
+                        self.out.op_ranges.push((ord_before, simsys::ordinal(), op.kind().to_string()));
+                    }
                     if simsys::is_frozen() {
                         self.logln(&format!("step {step} {} inflight {real}", op.kind()));
                         return Ok(Some(i));
                     }
-                    let want = Self::apply_model(&mut self.model, op);
+                    let fired_now = errno_fired() > errs_before;
+                    if fired_now && !fault_target(op) {
+                        // ordinals shifted after an earlier fault: this run is outside the fault-mix design
+                        return Err(fail("skip:fault_outside_target_ops", step, op.kind().to_string()));
+                    }
+                    let indeterminate = !self.case.faults.is_empty() && real.starts_with("err:") && errno_fired() > 0 && fault_target(op);
+                    let want = if indeterminate {
+                        // wholly applied or wholly absent: every candidate splits in two
+                        self.out.indeterminate_ops += 1;
+                        let mut extra = Vec::new();
+                        for m in std::iter::once(&self.model).chain(self.alts.iter()) {
+                            let mut w = m.clone();
+                            Self::apply_model(&mut w, op);
+                            extra.push(w);
+                        }
+                        for w in extra {
+                            if w != self.model && !self.alts.contains(&w) {
+                                self.alts.push(w);
+                            }
+                        }
+                        "any".to_string()
+                    } else if !self.alts.is_empty() && real.starts_with("err:") {
+                        // candidates disagree about what the engine holds, so the model cannot predict this
+                        // result; an operation that reports an error has no effect in any candidate
+                        "any".to_string()
+                    } else {
+                        for m in self.alts.iter_mut() {
+                            Self::apply_model(m, op);
+                        }
+                        let w = Self::apply_model(&mut self.model, op);
+                        let primary = self.model.clone();
+                        self.alts.retain(|m| *m != primary);
+                        self.alts.dedup();
+                        if self.alts.is_empty() { w } else { "any".to_string() }
+                    };
+                    self.out.max_candidates = self.out.max_candidates.max(self.alts.len() as u32 + 1);
                     self.logln(&format!("step {step} {} -> {real}", op.kind()));
                     if real.starts_with("err:") {
                         self.out.op_errors += 1;
                     }
-                    if self.case.check_model && self.case.faults.is_empty() && !Self::result_matches(&real, &want) {
+                    if self.case.check_model && !fired_now && !Self::result_matches(&real, &want) {
                         return Err(fail(
                             if want.starts_with("err:") || real.starts_with("err:") { "op_result_class" } else { "report_mismatch" },
                             step,
@@ -614,6 +732,7 @@ pub fn exec(case: &Case) -> Outcome {
         last_obs: Obs::default(),
         log: Vec::new(),
         out: Outcome::default(),
+        alts: Vec::new(),
     };
     x.out.crash_step = -1;
     let r = exec_inner(&mut x);
@@ -640,6 +759,7 @@ pub fn exec(case: &Case) -> Outcome {
         faults_short: c.faults_short,
         frozen_rejects: c.frozen_rejects,
     };
+    out.errno_by_code = c.faults_errno.clone();
     let trace = simsys::take_trace();
     for ev in &trace {
         x.log.extend_from_slice(format!("fs {} {} {} {}\n", ev.ord, ev.kind, ev.path, ev.len).as_bytes());
@@ -770,10 +890,19 @@ fn exec_inner(x: &mut Exec) -> Result<(), Failure> {
         if let Some(op) = &inflight {
             Exec::apply_model(&mut with, op);
         }
-        let cand = [("acked", &without), ("acked+inflight", &with)];
+        let mut cand: Vec<(&str, StoreModel)> = vec![("acked", without.clone()), ("acked+inflight", with.clone())];
+        for a in &x.alts {
+            cand.push(("acked+failed-op", a.clone()));
+            if let Some(op) = &inflight {
+                let mut w = a.clone();
+                Exec::apply_model(&mut w, op);
+                cand.push(("acked+failed-op+inflight", w));
+            }
+        }
+        x.alts.clear();
         let mut matched: Option<&StoreModel> = None;
         let mut first_diff = String::new();
-        for (label, m) in cand {
+        for (label, m) in cand.iter().map(|(l, m)| (*l, m)) {
             let want = m.normalised();
             let d = obs.diff_facts(&want).or_else(|| obs.diff_rules(&want)).or_else(|| obs.diff_schemas(&want));
             match d {
